@@ -72,6 +72,19 @@ impl Default for Arena {
     }
 }
 
+/// verification hook (off unless built with `--cfg abra_verif`): (base address, length) of every
+/// buffer the arena owns, retired ones first and the current one last, and the current offset.
+#[cfg(abra_verif)]
+impl Arena {
+    pub fn verif_layout(&self) -> (Vec<(usize, usize)>, usize) {
+        let inner = unsafe { &*self.inner.get() };
+        let mut bufs: Vec<(usize, usize)> =
+            inner.old_bufs.iter().map(|b| (b.as_ptr() as usize, b.len())).collect();
+        bufs.push((inner.current_buf.as_ptr() as usize, inner.current_buf.len()));
+        (bufs, inner.offset)
+    }
+}
+
 #[cfg(test)]
 mod tests {
     use super::*;
